@@ -345,7 +345,7 @@ Fixpoint eval (n : nat) (ev : env) (oc : octx) (e : expr) {struct n} : M value :
     | EUn o a =>
         v <- eval n' ev oc a ;;
         match o, v with
-        | UNeg, VNum z => retnum (- z)
+        | UNeg, VNum z => if (z =? 0)%Z then fail KUnsup (* -0 *) else retnum (- z)
         | UPlus, VNum z => retnum z
         | UNot, VBool b => ret (VBool (negb b))
         | UBitNot, VNum z => retnum (- z - 1)
@@ -685,13 +685,17 @@ with binop_val (n : nat) (o : binop) (a b : value) {struct n} : M value :=
       | BAdd, VArr x, VArr y => ret (VArr (x ++ y))
       | BAdd, VObj _ x, VObj _ y => oid <- fresh_oid ;; ret (VObj oid (x ++ y))
       | BSub, VNum x, VNum y => retnum (x - y)
-      | BMul, VNum x, VNum y => retnum (x * y)
+      | BMul, VNum x, VNum y =>
+          if ((x * y =? 0) && ((x <? 0) || (y <? 0)))%Z then fail KUnsup (* -0 *) else retnum (x * y)
       | BMul, VStr _, VNum _ => fail KUnsup
       | BMul, VNum _, VStr _ => fail KUnsup
       | BDiv, VNum x, VNum y =>
           if (y =? 0)%Z then fail KRuntime
+          else if ((x =? 0) && (y <? 0))%Z then fail KUnsup (* -0 *)
           else if (Z.rem x y =? 0)%Z then retnum (Z.quot x y) else fail KUnsup
-      | BMod, VNum x, VNum y => if (y =? 0)%Z then fail KRuntime else retnum (Z.rem x y)
+      | BMod, VNum x, VNum y =>
+          if (y =? 0)%Z then fail KRuntime
+          else if ((Z.rem x y =? 0) && (x <? 0))%Z then fail KUnsup (* -0 *) else retnum (Z.rem x y)
       | BMod, VStr _, _ => fail KUnsup
       | BBitAnd, VNum x, VNum y => retnum (Z.land x y)
       | BBitOr, VNum x, VNum y => retnum (Z.lor x y)
